@@ -118,6 +118,38 @@ type vcNode struct {
 	signs []vcSign
 	net   *vcNet
 	decided bool
+	slot     vcSlot // emulation of the ticker's single slot (consensus/ticker.go)
+	panicked string // reason class if a handleMsg/handleTimeout call panicked ("none" otherwise)
+}
+
+// call f under recover(); production would crash the process here, the driver records it
+func (n *vcNode) guarded(f func()) {
+	defer func() {
+		if r := recover(); r != nil {
+			msg := fmt.Sprint(r)
+			switch {
+			case vcContains(msg, "+2/3 committed an invalid block"):
+				n.panicked = "committed an invalid block"
+			case vcContains(msg, "+2/3 prevoted for an invalid block"):
+				n.panicked = "+2/3 prevoted for an invalid block"
+			default:
+				if len(msg) > 80 {
+					msg = msg[:80]
+				}
+				n.panicked = "other: " + msg
+			}
+		}
+	}()
+	f()
+}
+
+func vcContains(s, sub string) bool {
+	for i := 0; i+len(sub) <= len(s); i++ {
+		if s[i:i+len(sub)] == sub {
+			return true
+		}
+	}
+	return false
 }
 
 type vcNet struct {
@@ -143,6 +175,7 @@ type vcNet struct {
 	soupKeys  []string
 	tmpdir    string
 	bound     int
+	gstOn     bool
 }
 
 func vcKey(m vcMsg) string { return m.T + "|" + m.Src + "|" + strconv.Itoa(m.R) + "|" + m.V }
@@ -213,6 +246,7 @@ func (*vcTicker) Stop() error  { return nil }
 func (tk *vcTicker) Chan() <-chan timeoutInfo { return make(chan timeoutInfo) }
 func (*vcTicker) SetLogger(log.Logger)       {}
 func (tk *vcTicker) ScheduleTimeout(ti timeoutInfo) {
+	tk.node.slot.schedule(ti)
 	tk.node.out = append(tk.node.out, vcOut{T: "sched", R: int(ti.Round), V: vcKindOfStep(ti.Step), Pol: -2})
 }
 
@@ -301,7 +335,7 @@ func vcNewNet(t *testing.T, in *vcInput, runID int) *vcNet {
 			continue
 		}
 		net.corr = append(net.corr, name)
-		node := &vcNode{name: name, net: net}
+		node := &vcNode{name: name, net: net, panicked: "none"}
 		c := *config
 		cc := *config.Consensus
 		cc.SkipTimeoutCommit = false
@@ -320,6 +354,7 @@ func vcNewNet(t *testing.T, in *vcInput, runID int) *vcNet {
 		cs.SetLogger(log.NewNopLogger())
 		cs.SetTimeoutTicker(&vcTicker{node: node})
 		node.cs = cs
+		cs.scheduleRound0(&cs.RoundState) // what OnStart does: the NewHeight timeout is in the ticker
 		net.nodes[name] = node
 	}
 	// Byzantine blocks: Z0 (valid, carries a tx) and ZX (fails ValidateBlock: wrong AppHash)
@@ -564,7 +599,7 @@ func (n *vcNode) project() map[string]interface{} {
 		"validR": int(rs.ValidRound), "validV": nameOf(rs.ValidBlock),
 		"prop": p, "propBlock": nameOf(rs.ProposalBlock), "partsHdr": partsHdr,
 		"ttp": rs.TriggeredTimeoutPrecommit, "commitR": int(rs.CommitRound),
-		"pv": pv, "pc": pc, "tracked": tracked, "decision": decision,
+		"pv": pv, "pc": pc, "tracked": tracked, "decision": decision, "panic": n.panicked,
 	}
 }
 
@@ -690,8 +725,15 @@ func (net *vcNet) concretize(m vcMsg) (vcItem, bool) {
 
 // run one environment step; returns false if it could not be realised (skipped)
 func (net *vcNet) step(w *vcWriter, run int, st vcStep) bool {
+	if st.Name == "GST" {
+		if !net.gstOn {
+			net.gstOn = true
+			w.emit(map[string]interface{}{"ev": "GST", "run": run, "bound": net.bound})
+		}
+		return true
+	}
 	n, ok := net.nodes[st.N]
-	if !ok {
+	if !ok || n.panicked != "none" {
 		return false
 	}
 	n.out, n.signs = nil, nil
@@ -711,7 +753,7 @@ func (net *vcNet) step(w *vcWriter, run int, st vcStep) bool {
 			if bp, isPart := mi.Msg.(*BlockPartMessage); isPart {
 				mi.Msg = &BlockPartMessage{Height: bp.Height, Round: n.cs.Round, Part: bp.Part}
 			}
-			n.cs.handleMsg(mi)
+			n.guarded(func() { n.cs.handleMsg(mi) })
 		}
 		ev["m"] = it.m
 		if it.m.T == "block" {
@@ -726,7 +768,8 @@ func (net *vcNet) step(w *vcWriter, run int, st vcStep) bool {
 		it := n.inq[0]
 		n.inq = n.inq[1:]
 		for _, mi := range it.msgs {
-			n.cs.handleMsg(mi)
+			mi := mi
+			n.guarded(func() { n.cs.handleMsg(mi) })
 		}
 		ev["m"] = it.m
 		ev["peer"] = st.N
@@ -736,10 +779,14 @@ func (net *vcNet) step(w *vcWriter, run int, st vcStep) bool {
 		}
 		net.soup[k] = it
 	case "Timeout":
-		ti := timeoutInfo{Duration: 0, Height: 1, Round: n.cs.Round, Step: vcStepOfKind(st.K)}
-		ev["m"] = vcMsg{T: "-", Src: "-", R: int(n.cs.Round), V: "-", Pol: -2}
+		round := n.cs.Round
+		if st.M.T == "tick" {
+			round = int32(st.M.R)
+		}
+		ti := timeoutInfo{Duration: 0, Height: 1, Round: round, Step: vcStepOfKind(st.K)}
+		ev["m"] = vcMsg{T: "-", Src: "-", R: int(round), V: "-", Pol: -2}
 		ev["k"] = st.K
-		n.cs.handleTimeout(ti, n.cs.RoundState)
+		n.guarded(func() { n.cs.handleTimeout(ti, n.cs.RoundState) })
 	default:
 		return false
 	}
@@ -793,6 +840,9 @@ func (net *vcNet) enabledSteps(rng *rand.Rand) []vcStep {
 	for _, nn := range net.corr {
 		n := net.nodes[nn]
 		cs := n.cs
+		if n.panicked != "none" {
+			continue
+		}
 		if len(n.inq) > 0 {
 			steps = append(steps, vcStep{Name: "ProcessInternal", N: nn})
 			steps = append(steps, vcStep{Name: "ProcessInternal", N: nn}) // favour progress
